@@ -165,6 +165,11 @@ Theorem C17_endpoint_root_derivative : forall (f df fp : R -> R) x_tol r_tol n x
     is_derive (fun u => fst (find_root_post (T:=R) f u aux x0 b0 b1 (INR n) x_tol r_tol)) v 1 /\
     (df v <> 0 -> root_jvp (T:=R) (df v) (fp v) 1 = - fp v / df v).
 Proof. exact endpoint_root_derivative. Qed.
+(* NOT PROVED (trusted / tested only): that jax.lax.custom_root's forward rule is the expression transcribed as M_C17d.root_jvp
+   (tied at binary64 to jax.jacfwd of find_root, within 2 ulp, on the scaled-residual stream) and that its reverse rule (jax.grad)
+   is the transpose of it (stream only: jax.grad against -f_a/f_x); that the root map is differentiable (hypothesis of
+   C17_find_root_derivative; at an end-point root with a FIXED bracket the map p |-> returned value is in general only one-sidedly a
+   root map, so the rule's value is the derivative of the root branch, not of a clamped map). *)
 Example C17_tiny_slope_nonvacuous :
   Gen_C17FindRoot.tangent_solve (T:=R) (fun dx => (1 / 100000000000000) * dx) (1 / 100000000000000) = 1.
 Proof. exact tiny_slope_nonvacuous. Qed.
